@@ -52,9 +52,11 @@ INVARIANT IdUniverse
 INVARIANT AliInverse
 INVARIANT TrnInverse
 INVARIANT CtmInverse
+INVARIANT CtmOrderFree
 INVARIANT TgInverse
 INVARIANT ErMergeOK
 INVARIANT ErBatchFree
+INVARIANT ErIdFree
 INVARIANT ErUniformExact
 INVARIANT SubOK
 INVARIANT SubRunIdentical
